@@ -13,7 +13,7 @@ TRUSTED = [
     "py2lean tracer (tools/py2lean/trace.py, coretrace.py, emit_core.py): symbolic execution of the current core.py/maths.py on numpy object arrays; "
     "validated on every run by translation validation (traced expression vs real method on the same random inputs, whole grid, real FD operators)",
     "numpy einsum/broadcast/slicing semantics (used unchanged by the tracer); exact-field arithmetic in place of IEEE-754",
-    "the printer from the traced expression DAG to Lean text (same DAG that translation validation evaluates)",
+    "the printer from the traced expression DAG to Lean text: validated each run by executing the printed definition bodies over Q (Gen/Q*.lean, byte-identical bodies, native executable `coreeval`) against exact evaluation of the DAG",
 ]
 
 
@@ -44,6 +44,15 @@ def regen_and_validate(ctx, needed):
     ctx.cov["translation_validation_cases"] = tot
     ctx.obligation("translation validation: traced formulas vs real methods (%d alternative-runs)" % tot,
                    not bad and tot > 0, "; ".join(bad[:6]), kind="translation-validation")
+    # printer validation: the generated Lean TEXT (same bodies, K := Rat) is executed natively and
+    # compared exactly with the evaluation of the traced DAG
+    try:
+        ndefs, pm = tv.validate_printer(results, shapes, index, seed=ctx.seed % 1000)
+    except Exception as ex:  # noqa
+        ndefs, pm = 0, ["printer validation crashed: %r" % ex]
+    ctx.cov["printer_validation_definitions"] = ndefs
+    ctx.obligation("printer validation: generated Lean text evaluated over Q == traced DAG (%d definitions)" % ndefs,
+                   not pm and ndefs > 0, "; ".join(pm[:5]), kind="translation-validation")
     for i in index:
         if i["key"] in needed and i["status"] == "ok":
             ctx.sample({"generated": i["name"], "looks_up": i["deps"][:8], "present_sets": i["present_sets"], "vacuum": i["vacuum"]})
